@@ -134,9 +134,9 @@ def validate(traces, rep, max_cores=14):
 # ---------------------------------------------------------------------------------------------
 # A: schedules chosen by TLC (random walks of HmsCores) replayed on the real VM, hooks as gates
 
-def export_schedules(rep, n, seed, cores=4, spawns=3, cancel=False):
+def export_schedules(rep, n, seed, cores=4, spawns=3, cancel=False, joins=0):
     r = C.run_tlc("HmsCores", cfg(cores=cores, spawns=spawns, fatal=1, calls=1, cancel=cancel, work=1,
-                                  invs="ExportSched LockDiscipline", hist=True, strict=True),
+                                  invs="ExportSched LockDiscipline", hist=True, strict=True, joins=joins),
                   workers=4, timeout=600, tags=("SCHED",), simulate="num=%d" % max(1, n // 4),
                   extra_args=["-depth", "200", "-seed", str(seed)])
     C.tlc_must_pass(r, "HmsCores schedule export")
@@ -151,21 +151,28 @@ def export_schedules(rep, n, seed, cores=4, spawns=3, cancel=False):
 
 
 def program_for(s):
-    """derive a program whose cores behave as in the schedule: who spawns how often, how each core ends"""
+    """derive a program whose cores behave as in the schedule: who spawns and joins whom in which order, how each core ends"""
     hist = s["hist"]
-    spawns = {}            # spawner -> list of child ids, in order
+    acts = {}              # core -> its spawns and joins, in order
+    parent = {}
     nxt = 1
     for p, a in hist:
         if a == "SpawnAppend":
-            spawns.setdefault(p, []).append(nxt)
+            acts.setdefault(p, []).append(("spawn", nxt))
+            parent[nxt] = p
             nxt += 1
+        elif a == "JoinBegin":                       # p is the thread which is joined, by the core that spawned it
+            acts.setdefault(parent[p], []).append(("join", p))
     ncores = nxt - 1
     res = s["res"]
     src = []
     for c in range(1, ncores + 1):
         body = ["    println(\"start %d\");" % c]
-        for ch in spawns.get(c, []):
-            body.append("    spawn f%d();" % ch)
+        for what, ch in acts.get(c, []):
+            if what == "spawn":
+                body.append("    let h%d = spawn f%d();" % (ch, ch))
+            else:
+                body.append("    h%d.join();" % ch)
         kind = res[c - 1]
         if kind == "fatal":
             body.append("    throw(\"f%d failed\");" % c)
